@@ -40,6 +40,7 @@ func (s scope) lookup(k string) data.Value {
 			return val
 		}
 	}
+	verifUnbound(k)
 	return data.Undefined{}
 }
 
